@@ -71,7 +71,7 @@ theorem mapAll_step (w : W) (g : Conn → Conn) (hg : ∀ c, (g c).id = c.id)
 theorem applyAction_same (w : W) (a : Action) : Same w (applyAction w a).1 := by
   cases a with
   | tick dt => exact ⟨rfl, rfl, rfl, rfl, rfl, rfl, rfl, rfl, rfl, by trx⟩
-  | conn c => exact Same.refl w
+  | conn c => exact ⟨rfl, rfl, rfl, rfl, rfl, rfl, rfl, rfl, rfl, by trx⟩
   | send c t => simp only [applyAction]; split <;> exact Same.refl w
   | close c => simp only [applyAction]; split <;> exact ⟨rfl, rfl, rfl, rfl, rfl, rfl, rfl, rfl, rfl, by trx⟩
   | reset c => simp only [applyAction]; split <;> exact ⟨rfl, rfl, rfl, rfl, rfl, rfl, rfl, rfl, rfl, by trx⟩
